@@ -251,7 +251,13 @@ def _roundoff_through_discontinuity(src, new, feeds, scale, k, rel, abs_):
                         return None
                     inexact = False
                     # the node that produces the same-named value in M' (its inputs may have been renamed by the transformation)
-                    n2 = next((n for n in new.model.graph.node if o in n.output), None)
+                    # (common-subexpression elimination leaves Identity(<the surviving twin>) under the old name: look through it)
+                    prod2 = {x: n for n in new.model.graph.node for x in n.output}
+                    n2 = prod2.get(o)
+                    for _ in range(8):
+                        if n2 is None or n2.op_type != "Identity" or node.op_type == "Identity":
+                            break
+                        n2 = prod2.get(n2.input[0])
                     if n2 is None or n2.op_type != node.op_type or len(n2.input) != len(node.input):
                         return None
                     for x, x2 in zip(node.input, n2.input):
